@@ -55,6 +55,7 @@ type stSess struct {
 	sw      *badger.StreamWriter
 	swPreList []string      // contents of the destination before the stream writer started
 	swData  []*pb.KV        // everything written through the stream writer
+	swOld   map[uint64]bool // table ids present when the stream writer was prepared
 	lastKVs [][]*pb.KV      // output of the last stream op, one list per range
 	st      *Stats
 }
@@ -266,14 +267,23 @@ func (s *stSess) basicOp(w []string, line string, emit func(string, string), fai
 		}
 		emit(line, "ok")
 	case "flush":
+		badger.VerifTakeEvents()
 		err := badger.VerifFlush(mv.db)
-		emit(line, errKind(err))
+		if err != nil {
+			emit(line, errKind(err))
+			return true
+		}
+		nEv := 0
+		mv.emitEvents(func(op, out string) { nEv++; emit(op, out) }, fail)
+		if nEv == 0 {
+			emit("flush id=0", "ok") // empty memtable: nothing was written
+		}
 		emit("dump", mv.dump())
 		mv.judgeStructure(fail)
 	case "compact", "compact-none":
 		mv.compact(kvWords(w[1:]), emit, fail)
 	case "dump":
-		emit("dump", mv.dump())
+		// dumps are emitted automatically after structural ops
 	default:
 		return false
 	}
@@ -569,6 +579,14 @@ func (s *stSess) doStream(w []string, line string, emit func(string, string), fa
 	// the oracle's single snapshot, taken when the run starts
 	snap, keys, snapTs := s.snapshot(mv, kv, uint64(kvInt(kv, "since", 0)))
 	run, ranges, _ := s.runStream(mv, kv, nil)
+	if _, ok := kv["mid"]; ok && len(run.rts) == 1 && !run.rts[snapTs] {
+		// every producer created its transaction after the concurrent commit: the one snapshot
+		// of this run is the one after it
+		snap2, keys2, ts2 := s.snapshot(mv, kv, uint64(kvInt(kv, "since", 0)))
+		if run.rts[ts2] {
+			snap, keys, snapTs = snap2, keys2, ts2
+		}
+	}
 	// final op line: intent + the split points observed
 	var words []string
 	for _, x := range w[1:] {
@@ -867,13 +885,27 @@ func (s *stSess) doCmpRestore(w []string, line string, emit func(string, string)
 			}
 		}
 	}
-	// nothing extra in the restored DB
-	s.cur = kvInt(kv, "dst", 1)
-	_, dkeys, _ := s.snapshot(dst.mv, map[string]string{"at": utoa(math.MaxUint64)}, 0)
-	s.cur = save
-	for _, k := range dkeys {
-		if _, ok := snap[k]; !ok {
-			fail("C24-restored-extra", fmt.Sprintf("key %s exists only in the restored DB", hx([]byte(k))))
+	// keys the source no longer holds at all (final state: every key of the restored DB)
+	if final {
+		s.cur = kvInt(kv, "dst", 1)
+		_, dk, _ := s.snapshot(dst.mv, map[string]string{"at": utoa(math.MaxUint64)}, 0)
+		s.cur = save
+		for _, k := range dk {
+			if _, ok := snap[k]; ok {
+				continue
+			}
+			a, b := src.mv.readAt([]byte(k), math.MaxUint64), dst.mv.readAt([]byte(k), math.MaxUint64)
+			if a == b {
+				continue
+			}
+			// the source's history: was the newest write to k a delete / an expired entry that
+			// compaction has since removed together with everything below it?
+			if nv, ok := src.mv.spec.newest([]byte(k), math.MaxUint64, 0); ok && nv.dead(src.mv.now) && a == "absent" && src.mv.spec.compacted {
+				fail("F16:incremental-backup-lost-tombstone", fmt.Sprintf("key %s: the source deleted/expired it at version %d and a compaction dropped that marker before the next incremental backup ran; source reads %q, restored chain reads %q",
+					hx([]byte(k)), nv.ver, a, b))
+			} else {
+				fail("C24-restored-read", fmt.Sprintf("key %s at ts=max: source reads %q, restored DB reads %q", hx([]byte(k)), a, b))
+			}
 			return
 		}
 	}
@@ -920,8 +952,10 @@ func (s *stSess) doReopen(line string, emit func(string, string), fail func(stri
 	}
 	before := allEntries(mv.db)
 	maxV := uint64(0)
+	oldIDs := map[uint64]bool{}
 	for _, lvl := range badger.VerifLevels(mv.db) {
 		for _, t := range lvl {
+			oldIDs[t.ID] = true
 			for _, e := range t.Entries {
 				if e.Version > maxV {
 					maxV = e.Version
@@ -955,7 +989,15 @@ func (s *stSess) doReopen(line string, emit func(string, string), fail func(stri
 	}
 	mv.txns = map[int]*mvTxn{}
 	next := badger.VerifNextTxnTs(mv.db)
-	emit(line, fmt.Sprintf("ok next=%d", next))
+	newID := uint64(0)
+	for _, lvl := range badger.VerifLevels(mv.db) {
+		for _, t := range lvl {
+			if !oldIDs[t.ID] {
+				newID = t.ID
+			}
+		}
+	}
+	emit(fmt.Sprintf("reopen id=%d", newID), fmt.Sprintf("ok next=%d", next))
 	emit("dump", mv.dump())
 	after := allEntries(mv.db)
 	if strings.Join(before, " ") != strings.Join(after, " ") {
@@ -1011,6 +1053,12 @@ func (s *stSess) doSwPrepare(w []string, line string, emit func(string, string),
 	s.sw = sw
 	s.swData = nil
 	s.swPreList = allEntries(mv.db)
+	s.swOld = map[uint64]bool{}
+	for _, lvl := range badger.VerifLevels(mv.db) {
+		for _, t := range lvl {
+			s.swOld[t.ID] = true
+		}
+	}
 	if !inc {
 		mv.spec = newSpec()
 		if len(s.swPreList) != 0 {
@@ -1068,7 +1116,6 @@ func (s *stSess) doSwFlush(w []string, line string, emit func(string, string), f
 		return
 	}
 	mv := s.curMv()
-	before := badger.VerifLevels(mv.db)
 	err := s.sw.Flush()
 	s.sw = nil
 	if err != nil {
@@ -1078,17 +1125,12 @@ func (s *stSess) doSwFlush(w []string, line string, emit func(string, string), f
 	}
 	after := badger.VerifLevels(mv.db)
 	// the new tables, in level order
-	old := map[uint64]bool{}
-	for _, lvl := range before {
-		for _, t := range lvl {
-			old[t.ID] = true
-		}
-	}
+	old := s.swOld
 	var sizes []string
 	for _, lvl := range after {
 		for _, t := range lvl {
 			if !old[t.ID] {
-				sizes = append(sizes, strconv.Itoa(len(t.Entries)))
+				sizes = append(sizes, fmt.Sprintf("%d:%d", t.ID, len(t.Entries)))
 			}
 		}
 	}
@@ -1223,6 +1265,9 @@ func execStreamEng(intents []string, st *Stats) (final, outs, oracle []string) {
 			continue
 		}
 		progress(line)
+		if w[len(w)-1] == "ev=1" {
+			continue // a consequence of the preceding intent line (replay)
+		}
 		if w[0] != "reset" && s.curMv() == nil {
 			emit(line, "bad-op")
 			continue
@@ -1612,6 +1657,9 @@ func (g *stGen) swRound(done bool, verBase uint64) {
 		lo, hi := i*per, (i+1)*per
 		if hi > len(ks) {
 			hi = len(ks)
+		}
+		if lo >= hi {
+			break
 		}
 		for _, k := range ks[lo:hi] {
 			nv := 1 + g.rng.Intn(3)
